@@ -336,3 +336,17 @@ pub trait Proto: Send + Sync {
     /// `KeGroup::is_zero_scalar(deserialize_sk(bytes))`
     fn kg_is_zero_scalar(&self, sk: &[u8]) -> Result<bool, IErr>;
 }
+
+thread_local! {
+    /// when set, the suite adapters pass `.clone()`s of the parameter structs
+    /// (ClientRegistrationFinishParameters, ClientLoginFinishParameters,
+    /// ServerLoginStartParameters) instead of the freshly built values, so that the
+    /// structs' Clone impls are part of what is exercised
+    static CLONE_PARAMS: std::cell::Cell<bool> = const { std::cell::Cell::new(false) };
+}
+pub fn set_clone_params(on: bool) {
+    CLONE_PARAMS.with(|c| c.set(on));
+}
+pub fn clone_params() -> bool {
+    CLONE_PARAMS.with(|c| c.get())
+}
